@@ -139,6 +139,16 @@ func encObs(c *wire.Case, obs []tobs) {
 	}
 }
 
+func encAfter(c *wire.Case, after []osm.Updates) {
+	c.Len(len(after))
+	for _, us := range after {
+		c.Len(len(us))
+		for _, u := range us {
+			annot.EncUpdate(c, u)
+		}
+	}
+}
+
 func descObs(obs []tobs) interface{} {
 	var l []interface{}
 	for _, ob := range obs {
@@ -163,24 +173,12 @@ func stepCase(w *wire.Writer, rng *rand.Rand, in *annot.Input, o *annot.Outcome,
 	in.Encode(c)
 	o.Encode(c)
 	var obs []tobs
+	var beforeLists []osm.Updates
 	if o.Status == 0 {
 		// snapshot of the update lists at return time: the snapshots below must not change them
-		var before []osm.Updates
 		for _, us := range o.Updates {
-			before = append(before, append(osm.Updates(nil), us...))
+			beforeLists = append(beforeLists, append(osm.Updates(nil), us...))
 		}
-		defer func() {
-			_, after := o.Built.Observe()
-			for i := range before {
-				same := len(before[i]) == len(after[i])
-				for k := 0; same && k < len(before[i]); k++ {
-					same = before[i][k] == after[i][k]
-				}
-				if !same && c.OracleFail == "" {
-					c.OracleFail = fmt.Sprintf("ApplyUpdatesUpTo on a shallow copy changed the update list of the annotated parent version %d", i+1)
-				}
-			}
-		}()
 		for pidx, p := range in.Parents {
 			if !p.Visible {
 				continue
@@ -191,6 +189,22 @@ func stepCase(w *wire.Writer, rng *rand.Rand, in *annot.Input, o *annot.Outcome,
 		}
 	}
 	encObs(c, obs)
+	// the update lists of the annotated objects AFTER the observations on shallow copies (Coq compares
+	// them with the lists at return time; the Go comparison below is the fallback oracle)
+	var after []osm.Updates
+	if o.Status == 0 {
+		_, after = o.Built.Observe()
+		for i := range o.Updates {
+			same := len(o.Updates[i]) == len(after[i])
+			for k := 0; same && k < len(after[i]); k++ {
+				same = beforeLists[i][k] == after[i][k]
+			}
+			if (!same || len(beforeLists[i]) != len(after[i])) && c.OracleFail == "" {
+				c.OracleFail = fmt.Sprintf("ApplyUpdatesUpTo on a shallow copy changed the update list of the annotated parent version %d", i+1)
+			}
+		}
+	}
+	encAfter(c, after)
 	desc := map[string]interface{}{"input": in.Desc(), "outcome": o.Desc(), "apply_updates_up_to": descObs(obs)}
 	for k, v := range extra {
 		desc[k] = v
@@ -380,6 +394,8 @@ func errorFamily() []*annot.Input {
 	return out
 }
 
+const canaryAfter = "canary: the update list of the annotated object changed after the snapshots (first update lost)"
+
 func main() {
 	a := wire.ParseArgs()
 	rng := wire.Rng(a.Seed)
@@ -479,6 +495,15 @@ func main() {
 		o3, obs3 := f(&o2, obs2)
 		o3.Encode(c)
 		encObs(c, obs3)
+		after := o3.Updates
+		if o3.Status != 0 {
+			after = nil
+		}
+		if desc == canaryAfter && len(after) > 0 && len(after[0]) > 0 {
+			// the first update list lost its first element after the observations
+			after = append([]osm.Updates{after[0][1:]}, after[1:]...)
+		}
+		encAfter(c, after)
 		w.Add(c)
 	}
 	mk("canary: annotated changeset of the first reference changed", func(o *annot.Outcome, obs []tobs) (*annot.Outcome, []tobs) {
@@ -497,6 +522,7 @@ func main() {
 		obs[0].refs[0].Version += 1
 		return o, obs
 	})
+	mk(canaryAfter, func(o *annot.Outcome, obs []tobs) (*annot.Outcome, []tobs) { return o, obs })
 	mk("canary: success reported as NoHistoryError", func(o *annot.Outcome, obs []tobs) (*annot.Outcome, []tobs) {
 		return &annot.Outcome{Status: 1, FID: canIn.Parents[0].Refs[0].FID}, nil
 	})
